@@ -39,6 +39,11 @@ impl Stack {
         self.entries.is_empty()
     }
 
+    /// Forgets all entries, e.g. those left behind by a solve that panicked.
+    pub(super) fn clear(&mut self) {
+        self.entries.clear();
+    }
+
     pub(super) fn push(&mut self, coinductive_goal: bool) -> StackDepth {
         let depth = StackDepth {
             depth: self.entries.len(),
